@@ -2,6 +2,8 @@
 
 package sod
 
+import "time"
+
 // C08 — concurrent calls are linearizable and free of data races.
 // Two (or three) threads under the engine's scheduler; interleavings at
 // lock-acquisition granularity are decision variables, bounded by a
@@ -219,4 +221,40 @@ func VH_C08_linear() {
 	}
 	xy, yx, par := run(0), run(1), run(2)
 	vAssert("C08.linearizable", vOr(vhC08ObsEq(par, xy), vhC08ObsEq(par, yx)))
+}
+
+// VH_C08_flusher: the background flusher as a third thread beside two
+// foreground calls (async configuration with a low threshold): no
+// race, no deadlock, everything accepted is on disk after Close.
+func VH_C08_flusher() {
+	names := []string{"Insert", "Update", "Delete", "Get", "Search", "All", "Count", "FlushAll", "Create"}
+	idx := func(n string) int {
+		for i, x := range vhC08Names {
+			if x == n {
+				return i
+			}
+		}
+		return 0
+	}
+	x := idx(names[vChoice("x", len(names))])
+	y := idx(names[vChoice("y", len(names))])
+	root := vTempDir()
+	db := Open(root)
+	LowercaseNames = false
+	s := DefaultSchema
+	s.Asynchrone(1, 100*time.Millisecond)
+	vAssert("C08.flusher.create", db.Create(&vObj{}, s) == nil)
+	c := &vhC08Ctx{db: db, a: &vObj{A: 1, S: "s", U: 1}, b: &vObj{A: 2, S: "s", U: 2}, res: make([]string, 3)}
+	vAssert("C08.flusher.pre", db.InsertOrUpdate(c.a) == nil && db.InsertOrUpdate(c.b) == nil)
+	for k := 0; k < 3; k++ {
+		c.sv = append(c.sv, db.Search(&vObj{}, "A", ">=", int64(0)))
+	}
+	c.newA = vInt64("newA")
+	vPar3(vhC08Op(c, x, 0), vhC08Op(c, y, 1), func() { vRunSpawned(2) })
+	vRaceCheck("C08.flusher.race")
+	vAssert("C08.flusher.completed", c.res[0] != "" && c.res[1] != "")
+	vAssert("C08.flusher.close", db.Close() == nil)
+	objs, err := Open(root).All(&vObj{})
+	n, _ := db.Count(&vObj{})
+	vAssert("C08.flusher.all_on_disk_after_close", err == nil && len(objs) == n)
 }
